@@ -13,6 +13,7 @@ import typing
 
 from pydsdl import read_namespace as read_dsdl_namespace
 
+from nunavut._dependencies import DependencyBuilder
 from nunavut._generators import create_default_generators
 from nunavut._namespace import build_namespace_tree
 from nunavut._postprocessors import (
@@ -223,6 +224,16 @@ class ArgparseRunner:
                     [x for x, _ in self._root_namespace.get_all_datatypes()],
                     lambda p: str(p.source_file_path.as_posix()),
                 )
+            self._stdout_lister(self._dependency_source_files(), lambda p: str(p.as_posix()))
+
+    def _dependency_source_files(self) -> typing.List[pathlib.Path]:
+        """
+        The DSDL files of the composite types that the generated types use, directly or transitively, and that are
+        not generated themselves (types found through the lookup directories). Their contents influence the output.
+        """
+        generated = [t for t, _ in self._root_namespace.get_all_datatypes()]
+        dependencies = DependencyBuilder(*generated).transitive().composite_types
+        return sorted({t.source_file_path for t in dependencies} - {t.source_file_path for t in generated})
 
     def _list_configuration_only(self) -> None:
         lctx = self._language_context
